@@ -166,7 +166,7 @@ class Scenario:
     """mesh (positions pm, 4 rows), hydro (no positions, 4 rows -> mesh positions), part (own positions pp, 4 rows: as many as
     the mesh), sink (own positions ps, 2 rows), other (no positions, 5 rows -> ignored)"""
 
-    def __init__(self, tree, mesh_name, inside, with_mesh=True):
+    def __init__(self, tree, mesh_name, inside, with_mesh=True, alias=False):
         self.tree, self.inside = tree, inside
         self.any_calls = []
         self.warned = []
@@ -186,6 +186,11 @@ class Scenario:
         self._group("sink", 2, pos="ps", members={"msink": "ms"})
         if with_mesh:
             self._group("other", 5, pos=None, members={"foo": "foo"})
+        if alias:
+            # the SAME Datagroup object stored under a second key (ds["tracers"] = ds["part"]): the result is keyed like the input
+            part = self._groups(self.ds)["part"] if hasattr(self, "_groups") else self.ds._attrs["groups"]["part"]
+            call_method(self.tree, self.hooks, self.ds, "__setitem__", "tracers", part)
+            self.layout.append(("tracers", 4, "pp"))
         self.ds._attrs["meta"] = {"time": "T", "ndim": 3}
         self.radius = ArrTok("radius", "cm", ())
         self.sizes = {c: ArrTok("d" + c, u, ()) for c, u in zip("xyz", ("cm", "m", "km"))}
@@ -274,11 +279,12 @@ def check_extract(run, tree, mesh_name):
         scenarios = [("mesh and sinks inside, particles outside", {"pm": True, "pp": False, "ps": True}, True),
                      ("only particles inside", {"pm": False, "pp": True, "ps": False}, True),
                      ("every row of the mesh inside, some sinks", {"pm": "all", "pp": False, "ps": True}, True),
-                     ("dataset without a mesh group; every group has its own positions", {"pm": False, "pp": True, "ps": True}, False)]
-        for label, inside, with_mesh in scenarios:
+                     ("dataset without a mesh group; every group has its own positions", {"pm": False, "pp": True, "ps": True}, False),
+                     ("one group object stored under two keys", {"pm": True, "pp": True, "ps": False}, True, True)]
+        for label, inside, with_mesh, *more in scenarios:
             construct = "%s[%s]" % (q, label)
             try:
-                sc = Scenario(tree, mesh_name, inside, with_mesh)
+                sc = Scenario(tree, mesh_name, inside, with_mesh, alias=bool(more))
                 before = sc.snapshot()
                 try:
                     res = run_extract(sc, kind)
